@@ -86,7 +86,9 @@ theorem C16_gen_register (W : World Det) (r : Reg) (e : Entry) (gen : Int) (sc v
     have he : OVal.seq .tuple [.val e.det, .fn e.fn, .int e.prio] = encEntry e := rfl
     obj_simp [Registry.register_decorator, encReg, getattr, setattr, lookupAttr, setAttrL, hv, truthy, dictClear, encCache,
       concat, add, intOf?, register]
-    rw [he, ← List.map_cons, sortByKey_entries _ (by intro x; obj_simp [encEntry, index, neg, intOf?])]
+    rw [he, ← List.map_cons, sortByKey_entries]
+    intro x
+    obj_simp [encEntry, index, neg, intOf?]
 
 /-- a target the validator refuses is a `TypeError`, the registry is untouched -/
 theorem C16_gen_register_invalid (W : World Det) (r : Reg) (e : Entry) (gen : Int) (sc vd base dflt : D)
